@@ -277,6 +277,18 @@ bool HexahedralMeshTopologyKernel::check_halfface_ordering(const std::vector<Hal
         return false;
     }
 
+    // Top and bottom are opposite sides of the hexahedron: they must not share a vertex
+    // (six quads can surround both in the right order and still be no hexahedron).
+    std::set<VertexHandle> verticesTop;
+    for(const auto &heh: halfedgesTop) {
+        verticesTop.insert(TopologyKernel::halfedge(heh).from_vertex());
+    }
+    for(const auto &heh: halfedgesBot) {
+        if(verticesTop.count(TopologyKernel::halfedge(heh).from_vertex()) > 0) {
+            return false;
+        }
+    }
+
     return true;
 }
 
